@@ -529,6 +529,16 @@ class Session:
                 if prot:
                     e = prot[op["a"] % len(prot)]
                 del prot
+            elif op["c"] % 8 == 4:
+                # some aim at a data set that several property groups list, first of all one that is the only member of
+                # one group and a member of a later one (the emptied group removes itself while the groups are visited)
+                def groups_of(d):
+                    return [g for g in (getattr(d.parent, "property_groups", None) or []) if d.uid in (g.properties or [])]
+                multi = [d for d in ents if is_data(d) and len(groups_of(d)) >= 2]
+                sole = [d for d in multi if any(len(g.properties or []) == 1 for g in groups_of(d)[:-1])]
+                if sole or multi:
+                    e = (sole or multi)[op["a"] % len(sole or multi)]
+                del multi, sole
             n = self.uids.num(e.uid)
             was_protected = not bool(e.allow_delete)
             sub_tree = api_tree(self.uids, e)
